@@ -134,6 +134,9 @@ func (fc *FnCtx) acquire(st *State, mi *monInfo) {
 		for _, inv := range mi.mon.Inv {
 			fc.assume(st, env.evalBool(inv.E))
 		}
+		for _, a := range mi.mon.Assume {
+			fc.assume(st, env.evalBool(a.E))
+		}
 	}
 }
 
